@@ -19,7 +19,7 @@ TIE_MODULES = ["DaliVerif.Tie.Command", "DaliVerif.Tie.Address", "DaliVerif.Tie.
 TIE_THEOREMS = ["Tie.Command.%s" % n for n in
                 ("stdNoParam_tie", "stdParam_tie", "dapc_tie", "devStd_tie", "devInst_tie",
                  "std_rows_traced", "dev_rows_traced", "inst_rows_traced")] + \
-               ["Tie.Event.%s_%s_tie" % (f, sc) for f in ("ev", "evLight")
+               ["Tie.Event.%s_%s_tie" % (f, sc) for f in ("ev", "evLight", "evOcc")
                 for sc in ("device", "deviceInstance", "deviceGroup", "instanceGroup", "inst")]
 THEOREMS = ["tables_ok2", "decode_construct", "decode_construct_gen", "render_preserved", "no_shared_frame",
             "std_param_rejected", "std_arity_rejected", "destination_rejected", "wrong_kind_rejected",
